@@ -33,6 +33,7 @@ func init() {
 		QuickBudget: 15 * time.Second, ThoroughBudget: 4 * time.Minute,
 		MinRuns: 100,
 		Exec:    runVoteDB,
+		ExpectedProbes: []string{"restart-in-same-round-at-higher-index", "resume-in-same-round-at-higher-index"},
 		PanicClass: kit.PanicInRepo("votedb-panic"),
 	})
 }
